@@ -481,6 +481,8 @@ def run(F, chk):
         def _sets_pos(n_):
             if n_["k"] != "Call":
                 return False
+            if n_.get("cls") != "nifly::NiHeader":
+                return False  # (a virtual `block->Put(stream)` also lists NiHeader::Put among its possible targets)
             ts_ = [t for t in (F.call_targets(n_) or []) if t in F.fns and F.fns[t].get("cls") == "nifly::NiHeader"]
             return any(t in setters or (F.reachable([t]) & setters) for t in ts_)
 
